@@ -167,6 +167,11 @@ func GenRandom(r *rand.Rand, pf Profile) *Scenario {
 		sc.WTRDelayUS = 300 + r.Intn(1700)
 	}
 	sc.Cells = 1 + r.Intn(5)
+	for c := 0; c < sc.Cells; c++ {
+		if r.Intn(4) == 0 {
+			sc.PairCells = append(sc.PairCells, c)
+		}
+	}
 	nrr := 1 + r.Intn(4)
 	for i := 0; i < nrr; i++ {
 		sc.RRs = append(sc.RRs, &RRSpec{
@@ -197,7 +202,11 @@ func GenRandom(r *rand.Rand, pf Profile) *Scenario {
 				}
 				ops = append(ops, Op{Kind: "write", Cell: c, Style: st})
 			case x < 12:
-				ops = append(ops, Op{Kind: "plainread", Cell: r.Intn(sc.Cells)})
+				if r.Intn(2) == 0 {
+					ops = append(ops, Op{Kind: "flush", RR: r.Intn(nrr), US: r.Intn(3)})
+				} else {
+					ops = append(ops, Op{Kind: "plainread", Cell: r.Intn(sc.Cells)})
+				}
 			case x < 14:
 				ops = append(ops, Op{Kind: "sleep", US: r.Intn(700)})
 			case x < 17:
@@ -288,6 +297,12 @@ func GenMatrix(r *rand.Rand, m MatrixCell, pf Profile) *Scenario {
 	}
 	sc.ParallelEnd = r.Intn(2) == 0
 
+	if r.Intn(2) == 0 {
+		sc.PairCells = append(sc.PairCells, 0) // only ever written invalidate-style
+	}
+	if r.Intn(2) == 0 {
+		sc.PairCells = append(sc.PairCells, 2)
+	}
 	g := &PNode{Name: "g", Key: "g", Leaves: []int{2}}
 	a := &PNode{Name: "a", Key: "a", Leaves: []int{2, 3}}
 	b := &PNode{Name: "b", Key: "b", Leaves: []int{3}, Kids: []*PNode{g}}
@@ -408,6 +423,12 @@ func GenMatrix(r *rand.Rand, m MatrixCell, pf Profile) *Scenario {
 // register it.
 func GenStorm(r *rand.Rand) *Scenario {
 	sc := &Scenario{Name: "storm", Cells: 2, WaitFirst: true}
+	if r.Intn(2) == 0 {
+		// fetch-then-register readers: the storm write then invalidates a
+		// resource that was fetched by the parked readers but has no
+		// registered dependant yet
+		sc.PairCells = []int{0}
+	}
 	sc.YieldSeed = r.Int63()
 	sc.Intensity = []int{0, 0, 10, 25}[r.Intn(4)]
 	sc.ParallelEnd = true
@@ -436,5 +457,41 @@ func GenStorm(r *rand.Rand) *Scenario {
 		}
 	}
 	sc.Writers = [][]Op{ops}
+	return sc
+}
+
+// GenNoComp builds a scenario of the "Stop before the first successful run"
+// leg: rerunner 0's first 4-9 runs return RetrySentinelError (so it has no
+// computation yet), 3-12 goroutines call RerunImmediately in a loop (every
+// retry wakes at once and the run goroutines contend with them), and Stop is
+// called at a seeded moment of that phase. An optional second, ordinary
+// rerunner shares the cell.
+func GenNoComp(r *rand.Rand) *Scenario {
+	sc := &Scenario{Name: "stop-without-computation", Cells: 1 + r.Intn(2)}
+	sc.YieldSeed = r.Int63()
+	sc.Intensity = []int{0, 0, 0, 15}[r.Intn(4)]
+	sc.ParallelEnd = r.Intn(2) == 0
+	p := &PNode{Name: "n0", Leaves: []int{0}, Fail: map[int]string{}}
+	m := 4 + r.Intn(6)
+	for i := 1; i <= m; i++ {
+		p.Fail[i] = "retry"
+	}
+	sc.RRs = append(sc.RRs, &RRSpec{Plan: p, Spawn: r.Intn(2) == 0, MinInterval: 200 + r.Intn(300)})
+	if r.Intn(2) == 0 {
+		sc.RRs = append(sc.RRs, &RRSpec{Plan: &PNode{Name: "n1", Leaves: []int{0}}, Spawn: r.Intn(2) == 0, MinInterval: 200 + r.Intn(300)})
+	}
+	h := 3 + r.Intn(10)
+	for i := 0; i < h; i++ {
+		sc.Writers = append(sc.Writers, []Op{{Kind: "flush", RR: 0, US: 400 + r.Intn(2000)}})
+	}
+	stop := []Op{}
+	if r.Intn(3) != 0 {
+		stop = append(stop, Op{Kind: "progress", US: 1000})
+	}
+	stop = append(stop, Op{Kind: "spin", US: r.Intn(120)}, Op{Kind: "stop", RR: 0})
+	if r.Intn(2) == 0 {
+		stop = append(stop, Op{Kind: "write", Cell: 0, Style: styleFor(r)})
+	}
+	sc.Writers = append(sc.Writers, stop)
 	return sc
 }
